@@ -14,3 +14,9 @@ Lemma cl_wrapper_future_sync : fact_wrapper_future_sync = true. Proof. reflexivi
 Lemma cl_wrapper_after : fact_wrapper_after = true. Proof. reflexivity. Qed.
 Lemma cl_drop_is_sync_free : fact_drop_is_sync_free = true. Proof. reflexivity. Qed.
 Lemma cl_drop_only_syncs : fact_drop_only_syncs = true. Proof. reflexivity. Qed.
+
+(* the scheduler entry points dispatch their decision (the generated tables g_sync / g_trysync / g_sync_no_panic give the action) to the
+   routine that the model's frames for that action describe: Immediate -> sync_immediate, Drain -> sync_drain, Wait -> sync_background *)
+Lemma cl_dispatch_sync : fact_dispatch_sync = true. Proof. reflexivity. Qed.
+Lemma cl_dispatch_try_sync : fact_dispatch_try_sync = true. Proof. reflexivity. Qed.
+Lemma cl_dispatch_sync_no_panic : fact_dispatch_sync_no_panic = true. Proof. reflexivity. Qed.
